@@ -50,7 +50,8 @@ type Item struct {
 	Nul      int    // 1-based position of a NUL byte in text content, 0 = none
 	Chunk    int    // size of the source's reads, 0 = as much as asked
 	Seed     int
-	Src      string // "reader" | "osfile"
+	Src      string // "reader" | "osfile" | "seeker" (in-memory io.Seeker)
+	Skip     int    // bytes of the source before the position at which it is handed to SetFileParam (seekable sources)
 	EOFData  bool   // last data is returned together with io.EOF
 }
 
@@ -65,16 +66,19 @@ type KV struct {
 }
 
 type Payload struct {
-	Kind  string // none | value | reader | readcloser
-	VKind string // value: json-map | text | bytes | xml | yaml | csv | html ; reader: chunked | bytesbuffer | stringsreader
-	Len   int
-	Seed  int
-	Chunk int
+	Fail   bool   // the reader fails once (transiently) ...
+	FailAt int    // ... when it reaches this offset
+	Kind   string // none | value | reader | readcloser
+	VKind  string // value: json-map | text | bytes | xml | yaml | csv | html ; reader: chunked | bytesbuffer | stringsreader
+	Len    int
+	Seed   int
+	Chunk  int
 }
 
 type Case struct {
 	Method   string // "" = POST
 	PresetCT string // a Content-Type header set by the params writer
+	Debug    bool   // Runtime.Debug = true (with a silent logger)
 	Media    string
 	Payload  Payload
 	Fields   []KV
@@ -94,7 +98,8 @@ func (c Case) JSON() M {
 		items := make([]M, 0)
 		for _, it := range ff.Items {
 			items = append(items, M{"name": trace.B(it.Name), "declared": it.Declared, "len": it.Len, "head": it.Head,
-				"nul": it.Nul, "chunk": it.Chunk, "seed": it.Seed, "src": it.Src, "eofdata": it.EOFData})
+				"nul": it.Nul, "chunk": it.Chunk, "seed": it.Seed, "src": it.Src, "eofdata": it.EOFData,
+				"skip": it.Skip, "seekable": it.Src == "osfile" || it.Src == "seeker"})
 		}
 		files = append(files, M{"field": trace.B(ff.Field), "items": items})
 	}
@@ -105,9 +110,10 @@ func (c Case) JSON() M {
 	if method == "" {
 		method = "POST"
 	}
-	return M{"media": c.Media, "method": method, "presetct": c.PresetCT,
-		"payload": M{"kind": c.Payload.Kind, "vkind": c.Payload.VKind, "len": c.Payload.Len, "seed": c.Payload.Seed, "chunk": c.Payload.Chunk},
-		"fields":  fields, "files": files, "auth": c.Auth, "k": c.K, "via": c.Via}
+	return M{"media": c.Media, "method": method, "presetct": c.PresetCT, "debug": c.Debug,
+		"payload": M{"kind": c.Payload.Kind, "vkind": c.Payload.VKind, "len": c.Payload.Len, "seed": c.Payload.Seed, "chunk": c.Payload.Chunk,
+			"fail": c.Payload.Fail, "fail_at": c.Payload.FailAt},
+		"fields": fields, "files": files, "auth": c.Auth, "k": c.K, "via": c.Via}
 }
 
 // Batch is what one trace case is: one request, or several requests overlapping in time.
@@ -137,7 +143,8 @@ func caseFrom(d M) Case {
 	var c Case
 	c.Media = drv.Str(d["media"])
 	p := drv.Map(d["payload"])
-	c.Payload = Payload{Kind: drv.Str(p["kind"]), VKind: drv.Str(p["vkind"]), Len: drv.Int(p["len"]), Seed: drv.Int(p["seed"]), Chunk: drv.Int(p["chunk"])}
+	c.Payload = Payload{Kind: drv.Str(p["kind"]), VKind: drv.Str(p["vkind"]), Len: drv.Int(p["len"]), Seed: drv.Int(p["seed"]), Chunk: drv.Int(p["chunk"]),
+		Fail: drv.Bool(p["fail"]), FailAt: drv.Int(p["fail_at"])}
 	for _, f := range drv.List(d["fields"]) {
 		m := drv.Map(f)
 		kv := KV{K: trace.Str(m["k"])}
@@ -153,12 +160,12 @@ func caseFrom(d M) Case {
 			im := drv.Map(it)
 			ff.Items = append(ff.Items, Item{Name: trace.Str(im["name"]), Declared: drv.Str(im["declared"]), Len: drv.Int(im["len"]),
 				Head: drv.Str(im["head"]), Nul: drv.Int(im["nul"]), Chunk: drv.Int(im["chunk"]), Seed: drv.Int(im["seed"]),
-				Src: drv.Str(im["src"]), EOFData: drv.Bool(im["eofdata"])})
+				Src: drv.Str(im["src"]), EOFData: drv.Bool(im["eofdata"]), Skip: drv.Int(im["skip"])})
 		}
 		c.Files = append(c.Files, ff)
 	}
 	c.Auth, c.K, c.Via = drv.Bool(d["auth"]), drv.Int(d["k"]), drv.Str(d["via"])
-	c.Method, c.PresetCT = drv.Str(d["method"]), drv.Str(d["presetct"])
+	c.Method, c.PresetCT, c.Debug = drv.Str(d["method"]), drv.Str(d["presetct"]), drv.Bool(d["debug"])
 	return c
 }
 
@@ -207,13 +214,25 @@ type source struct {
 	chunk   int
 	eofData bool
 	closed  int
+	fail    bool // fails once when reaching failAt
+	failAt  int
+	failed  bool
 }
 
+var errTransient = errors.New("transient read failure")
+
 func (s *source) Read(p []byte) (int, error) {
+	if s.fail && !s.failed && s.off >= s.failAt {
+		s.failed = true
+		return 0, errTransient
+	}
 	if s.off >= len(s.data) {
 		return 0, io.EOF
 	}
 	n := len(p)
+	if s.fail && !s.failed && s.off+n > s.failAt {
+		n = s.failAt - s.off
+	}
 	if s.chunk > 0 && n > s.chunk {
 		n = s.chunk
 	}
@@ -246,6 +265,34 @@ type declaredSource struct {
 }
 
 func (d declaredSource) ContentType() string { return d.ct }
+
+// seekSource is an in-memory upload that implements io.Seeker (like a file).
+type seekSource struct {
+	*bytes.Reader
+	name string
+}
+
+func (s seekSource) Name() string { return s.name }
+func (s seekSource) Close() error { return nil }
+
+type declaredSeek struct {
+	seekSource
+	ct string
+}
+
+func (d declaredSeek) ContentType() string { return d.ct }
+
+// lead is what a seekable source holds before the position at which it is handed over: it looks like a PNG.
+func lead(n int) []byte {
+	b := make([]byte, n)
+	copy(b, "\x89PNG\r\n\x1a\n")
+	return b
+}
+
+type silent struct{}
+
+func (silent) Printf(string, ...interface{}) {}
+func (silent) Debugf(string, ...interface{}) {}
 
 type declaredFile struct {
 	*os.File
@@ -375,7 +422,7 @@ func prepare(cs Case) *prepared {
 	case "reader", "readcloser":
 		data := content(Item{Len: cs.Payload.Len, Head: "bin", Seed: cs.Payload.Seed})
 		p.supplied["payload"] = sha(data)
-		src := &source{data: data, chunk: cs.Payload.Chunk}
+		src := &source{data: data, chunk: cs.Payload.Chunk, fail: cs.Payload.Fail, failAt: cs.Payload.FailAt}
 		switch {
 		case cs.Payload.Kind == "readcloser":
 			payload = src
@@ -406,7 +453,7 @@ func prepare(cs Case) *prepared {
 					panic(err)
 				}
 				path := filepath.Join(dir, filepath.Base(it.Name))
-				if err := os.WriteFile(path, data, 0o600); err != nil {
+				if err := os.WriteFile(path, append(lead(it.Skip), data...), 0o600); err != nil {
 					panic(err)
 				}
 				p.toRemove = append(p.toRemove, dir)
@@ -414,10 +461,26 @@ func prepare(cs Case) *prepared {
 				if err != nil {
 					panic(err)
 				}
+				// the caller has consumed / skipped the first it.Skip bytes
+				if _, err := f.Seek(int64(it.Skip), io.SeekStart); err != nil {
+					panic(err)
+				}
 				if it.Declared != "" {
 					u.files = append(u.files, declaredFile{f, it.Declared})
 				} else {
 					u.files = append(u.files, f)
+				}
+				continue
+			}
+			if it.Src == "seeker" {
+				rd := bytes.NewReader(append(lead(it.Skip), data...))
+				if _, err := rd.Seek(int64(it.Skip), io.SeekStart); err != nil {
+					panic(err)
+				}
+				if it.Declared != "" {
+					u.files = append(u.files, declaredSeek{seekSource{rd, it.Name}, it.Declared})
+				} else {
+					u.files = append(u.files, seekSource{rd, it.Name})
 				}
 				continue
 			}
@@ -515,6 +578,10 @@ func (p *prepared) send(req *http.Request) {
 func (p *prepared) submit() {
 	p.guard(func() {
 		p.rt.Transport = p.rec
+		if p.cs.Debug {
+			p.rt.SetLogger(silent{})
+			p.rt.Debug = true
+		}
 		_, p.callErr = p.rt.Submit(p.op)
 		if p.callErr == nil && p.rec.err != nil {
 			p.callErr = p.rec.err
@@ -866,6 +933,81 @@ func generate(c *drv.Ctx) {
 			emit(Case{PresetCT: preset, Media: media, Files: []FileField{{"file", []Item{{Name: "a.txt", Len: 700, Head: "text", Src: "reader", Seed: seed}}}}, Via: "submit"})
 		}
 	}
+	// (iv-d) Runtime.Debug = true (the request is dumped before it is sent) x auth writers that do or do not look at the body
+	for _, k := range []int{-1, 0, 1, 2} {
+		var cases []Case
+		for _, p := range []Payload{{Kind: "reader", VKind: "chunked"}, {Kind: "readcloser", VKind: "chunked", Chunk: 7}, {Kind: "reader", VKind: "bytesbuffer"},
+			{Kind: "reader", VKind: "stringsreader"}, {Kind: "value", VKind: "json-map"}, {Kind: "none"}} {
+			for _, l := range []int{0, 1, 3000} {
+				seed++
+				p.Len, p.Seed = l, seed
+				media := "application/octet-stream"
+				if p.Kind == "value" {
+					media = mJSON
+				}
+				cases = append(cases, Case{Media: media, Payload: p})
+			}
+		}
+		for _, media := range []string{mForm, mMulti} {
+			cases = append(cases, Case{Media: media, Fields: []KV{{"k", []string{"v", "a b"}}}})
+			for _, l := range []int{0, 11, 600, 100000} {
+				seed++
+				cases = append(cases, Case{Media: media, Fields: []KV{{"k", []string{"v"}}},
+					Files: []FileField{{"file", []Item{{Name: "a.txt", Len: l, Head: "text", Src: "reader", Seed: seed}, plain("b.bin", "application/x-b")}}}})
+			}
+		}
+		for _, cs := range cases {
+			cs.Debug, cs.Via = true, "submit"
+			if k >= 0 {
+				cs.Auth, cs.K = true, k
+			}
+			emit(cs)
+		}
+	}
+	// (iv-e) a reader payload that fails once, transiently, at some offset x auth writers calling GetBody 0..3 times:
+	// the call fails, or what auth saw = what is sent = the whole payload
+	for _, kind := range []string{"reader", "readcloser"} {
+		for _, l := range []int{1, 100, 5000} {
+			for _, at := range []int{0, 1, l / 2, l - 1} {
+				if at >= l || at < 0 {
+					continue
+				}
+				for _, ch := range []int{0, 1, 512} {
+					if ch == 1 && l > 200 {
+						continue
+					}
+					for k := -1; k <= 3; k++ {
+						for _, via := range []string{"create", "submit"} {
+							seed++
+							cs := Case{Media: "application/octet-stream", Via: via,
+								Payload: Payload{Kind: kind, VKind: "chunked", Len: l, Seed: seed, Chunk: ch, Fail: true, FailAt: at}}
+							if k >= 0 {
+								cs.Auth, cs.K = true, k
+							}
+							emit(cs)
+						}
+					}
+				}
+			}
+		}
+	}
+	// (iv-f) seekable uploads (real files, in-memory seekers) handed over at a position > 0: what the reader yields from there is the file
+	for _, src := range []string{"osfile", "seeker"} {
+		for _, skip := range []int{0, 1, 8, 100, 600} {
+			for _, l := range []int{0, 11, 512, 5000} {
+				for _, h := range []string{"text", "png", "bin"} {
+					for _, decl := range []string{"", "application/x-custom"} {
+						seed++
+						it := Item{Name: "data.bin", Declared: decl, Len: l, Head: h, Src: src, Skip: skip, Seed: seed}
+						if !wellFormed(it) {
+							continue
+						}
+						emit(Case{Media: mMulti, Files: []FileField{{"file", []Item{it}}}, Via: []string{"create", "submit"}[seed%2]})
+					}
+				}
+			}
+		}
+	}
 	// (iv-c) uploads overlapping in time: all requests of a batch are built before the first is sent (single P, then all Ps),
 	// or submitted concurrently; every file without declared type, distinct contents
 	mkUpload := func(i, l int, declared string) Case {
@@ -913,6 +1055,7 @@ func generate(c *drv.Ctx) {
 func randomCase(c *drv.Ctx) Case {
 	r := c.Rng
 	cs := Case{Via: []string{"create", "submit"}[r.Intn(2)]}
+	cs.Debug = cs.Via == "submit" && r.Intn(4) == 0
 	if r.Intn(3) > 0 {
 		cs.Auth, cs.K = true, r.Intn(4)
 	}
@@ -923,6 +1066,9 @@ func randomCase(c *drv.Ctx) Case {
 			{Kind: "value", VKind: map[string]string{mJSON: "json-map", "text/plain": "text", "application/octet-stream": "bytes"}[m]}}
 		p := kinds[r.Intn(len(kinds))]
 		p.Len, p.Seed = r.Intn(20000), r.Intn(1<<20)
+		if p.VKind == "chunked" && p.Len > 0 && r.Intn(5) == 0 {
+			p.Fail, p.FailAt = true, r.Intn(p.Len)
+		}
 		if p.VKind == "chunked" {
 			p.Chunk = []int{0, 1, 3, 512, 4096}[r.Intn(5)]
 			if p.Chunk == 1 && p.Len > 3000 {
@@ -972,6 +1118,10 @@ func randomCase(c *drv.Ctx) Case {
 				}
 				if r.Intn(8) == 0 && it.Name != "" && it.Name != ".." && !strings.HasSuffix(it.Name, "/") {
 					it.Src, it.Chunk, it.EOFData = "osfile", 0, false
+					it.Skip = []int{0, 0, 3, 700}[r.Intn(4)]
+				} else if r.Intn(8) == 0 {
+					it.Src, it.Chunk, it.EOFData = "seeker", 0, false
+					it.Skip = []int{0, 5, 512, 2000}[r.Intn(4)]
 				}
 				if !wellFormed(it) {
 					it.Head, it.Nul = "text", 0
